@@ -65,7 +65,7 @@ def check(pc, goal, timeout_ms, dump=None, second=False):
         if m is not None:
             out['status'] = 'refuted'
             out['model'] = m
-            out['backend'] += ' (counter-model search with integer constants in 0..1 / -1..2)'
+            out['backend'] += ' (counter-model search with small integer constants and 1-3 elements per uninterpreted sort)'
             out['seconds'] = round(time.time() - t0, 4)
             return out
     # unknown: quantifier instantiation is order-sensitive -- retry with other seeds (an unsat answer is sound whatever the seed)
@@ -114,18 +114,57 @@ def _int_consts(fs):
     return list(ints.values())
 
 
+def _unint_sorts(fs):
+    sorts, seen = {}, set()
+
+    def walk(t):
+        if t.get_id() in seen:
+            return
+        seen.add(t.get_id())
+        if z3.is_quantifier(t):
+            for k in range(t.num_vars()):
+                so = t.var_sort(k)
+                if so.kind() == z3.Z3_UNINTERPRETED_SORT:
+                    sorts[so.name()] = so
+            walk(t.body())
+        elif z3.is_app(t):
+            so = t.sort()
+            if so.kind() == z3.Z3_UNINTERPRETED_SORT:
+                sorts[so.name()] = so
+            for c in t.children():
+                walk(c)
+    for f in fs:
+        walk(f)
+    return list(sorts.values())
+
+
 def _small_size_model(fs):
+    '''constraints are only ADDED (small integer constants, small uninterpreted sorts): a model found here is a model of the VC'''
     ints = _int_consts(fs)
-    if not ints:
+    sorts = _unint_sorts(fs)
+    if not ints and not sorts:
         return None
-    for lo, hi in ((0, 1), (-1, 2)):
-        s = z3.Solver()
-        s.set('timeout', 8000)
-        s.add(fs)
-        for t in ints:
-            s.add(t >= lo, t <= hi)
-        if s.check() == z3.sat:
-            return s.model()
+    tries = [((0, 1), None), ((-1, 2), None)] if ints else []
+    if sorts:
+        # one element per uninterpreted sort first: MBQI finishes on it where it diverges with two
+        tries = [((0, 1), 1), ((0, 2), 1)] + tries + [((0, 1), 2), ((-1, 2), 3)]
+    # model finding with quantifiers is seed-sensitive (the same query: sat in 1 s or timeout): several short attempts rather than a long one
+    for seed, budget in ((0, 2500), (3, 2500), (5, 2500), (11, 2500), (0, 8000)):
+        for rng, card in tries:
+            s = z3.Solver()
+            s.set('timeout', budget)
+            s.set('random_seed', seed)
+            s.add(fs)
+            if rng is not None:
+                for t in ints:
+                    s.add(t >= rng[0], t <= rng[1])
+            if card is not None:
+                for so in sorts:
+                    x = z3.Const('x!card', so)
+                    elems = [z3.Const(f'{so.name()}!el{k}', so) for k in range(card)]
+                    s.add(z3.ForAll([x], z3.Or(*[x == e for e in elems])))
+            if s.check() == z3.sat:
+                return s.model()
     return None
 
 
